@@ -207,7 +207,7 @@ def referenced_names(st):
 def variants(ctx, st, k, extra_same=0):
     """(kind, structure, argv order) variants of a project structure."""
     rng = ctx.rng
-    out = [("same", st, None)] * (3 + extra_same)
+    out = [("same", st, None)] * (4 + extra_same)
     for _ in range(2):
         s2 = copy.deepcopy(st)
         for f in s2["files"]:
@@ -511,11 +511,12 @@ def run(ctx, proofs):
                 for ao in o.get("analysis_orders", []):
                     seen_orders.add((j, ao))
                 if not is_corpus and info[j][1] == "same":
-                    ut = [n for n in o.get("template_orders", [""])[0].split() if n]
-                    if len(ut) == 2:
-                        for to in o.get("template_orders", []):
-                            key = "first<second" if to.split() == sorted(ut) else "second<first"
-                            order_hist[key] = order_hist.get(key, 0) + 1
+                    # relative iteration order of the two alphabetically first templates of the template map, per hash state
+                    tos = [to.split() for to in o.get("template_orders", []) if to != "<panic>"]
+                    ut = sorted(tos[0])[:2] if tos and len(tos[0]) >= 2 else None
+                    for to in tos if ut else []:
+                        key = "first<second" if to.index(ut[0]) < to.index(ut[1]) else "second<first"
+                        order_hist[key] = order_hist.get(key, 0) + 1
                 if len(outs) != 1:
                     inproc_multi += 1
                     known = is_corpus and projects[j].meta.get("known") and kf
@@ -644,7 +645,7 @@ def run(ctx, proofs):
             "definitions_changed_through_a_changed_reference": moved_total,
             "function_of_source_and_answers_keys": memo_keys,
             "all_analysis_orders_small_projects": perm_projects, "analysis_orders_driven_through_real_runner": perm_orders,
-            "iteration_order_of_two_template_maps": order_hist,
+            "relative_iteration_order_of_two_templates_per_hash_state": order_hist,
             "hash_state_samples_per_case": {"fresh_processes": nproc_min, "in_process_fresh_threads": reps},
             "probability_of_missing_a_two_outcome_order_dependence": {
                 "assumption": "the hasher keys of different processes / threads are independent (std RandomState: OS randomness per "
